@@ -28,9 +28,20 @@ def rnd_features(seq, rng, nmax=4, cites=0, marks=()):
         f = {"type": rng.choice(["CDS", "misc_feature", "promoter", "source"]), "strand": st, "parts": parts,
              "quals": {"label": ["f%d" % rng.randrange(1000)]}}
         if cites and rng.random() < 0.6:
-            f["cites"] = sorted(rng.sample(range(1, cites + 1), rng.randint(1, min(2, cites))))
+            f["cites"] = rnd_cites(rng, cites)
         feats.append(f)
     return feats
+
+
+def rnd_cites(rng, nref):
+    """one to three citation indices in any order; now and then the same reference twice"""
+    k = rng.randint(1, min(3, nref))
+    c = rng.sample(range(1, nref + 1), k)
+    if rng.random() < 0.5:
+        c.sort()
+    if rng.random() < 0.1:
+        c.append(c[0])
+    return c
 
 
 def cited_inside(spec, frag_start, frag_len, rng, nref):
@@ -40,7 +51,7 @@ def cited_inside(spec, frag_start, frag_len, rng, nref):
     a = (frag_start + rng.randint(0, frag_len - L)) % n
     parts = [[a, a + L]] if a + L <= n else [[a, n], [0, a + L - n]]
     return {"type": "CDS", "strand": rng.choice([1, -1]), "parts": parts, "quals": {"label": ["cited%d" % rng.randrange(1000)]},
-            "cites": sorted(rng.sample(range(1, nref + 1), rng.randint(1, min(2, nref))))}
+            "cites": rnd_cites(rng, nref)}
 
 
 def case_recipe(G, espec, rng, nmods, annotate=False, refs=False, rotate=True, shuffle=True, extra_unused=0, rc_close=False):
@@ -48,13 +59,14 @@ def case_recipe(G, espec, rng, nmods, annotate=False, refs=False, rotate=True, s
     if c is None:
         return None
     specs = []
-    shared = ["ref-shared-%d" % rng.randrange(100)] if refs else []
+    # a paper cited by several inputs; as parsed from GenBank it carries a base range ("bases 1 to 20"), the same in each file
+    shared = ["ref-shared-%d%s" % (rng.randrange(100), "||1-20|" if rng.random() < 0.5 else "")] if refs else []
     for name, s in [("vec", c["vector"])] + [("m%d" % (i + 1), m) for i, m in enumerate(c["modules"])]:
         k = rng.randrange(len(s)) if rotate else 0
         s2 = gen.rotate(s, k)
         spec = {"id": name, "seq": s2}
         if refs:
-            nref = rng.randint(0, 3)
+            nref = rng.randint(0, 3) if rng.random() < 0.9 else rng.randint(10, 13)      # (two-digit citation indices)
             # references are distinct within one record (a shared one may appear in several records)
             spec["refs"] = ["ref-%s-%d" % (name, i) for i in range(nref)]
             if nref and rng.random() < 0.6:
